@@ -363,6 +363,15 @@ func (m *Monitors) Observe(idx int, r *Result) {
 					if !isOpenRow(d, r.TAfter) && ns(d.ExpiresAt) > r.TAfter {
 						m.fire("C01", "enqueue", "delivery of a fresh message is not open")
 					}
+					if sb := r.SubsBefore[d.SubscriptionID]; sb != nil {
+						// retained for the subscription's message retention from its publish, first due after the injected delay
+						if ns(d.ExpiresAt) != ns(d.PublishedAt)+int64(sb.MessageTTL) {
+							m.fire("C14", "retention-at-publish", "message n=%d on subscription %s (retention %d ns) is retained for %d ns from its publish", spec.N, sb.Name, int64(sb.MessageTTL), ns(d.ExpiresAt)-ns(d.PublishedAt))
+						}
+						if ns(d.AttemptAt) != ns(d.PublishedAt)+int64(sb.DeliveryDelay) {
+							m.fire("C14", "delay-at-publish", "message n=%d on subscription %s (injected delay %d ns) is first due %d ns after its publish", spec.N, sb.Name, int64(sb.DeliveryDelay), ns(d.AttemptAt)-ns(d.PublishedAt))
+						}
+					}
 				}
 			}
 			for _, s := range r.SubsBefore {
@@ -925,6 +934,31 @@ func (m *Monitors) checkPrune(r *Result) {
 			// only on a live subscription does the link matter (deliveries of a deleted subscription are dead)
 			if p != nil && isOpenRow(p, now) && sub != nil && sub.DeletedAt == nil {
 				m.fire("C15", "prune-unblocked", "%s removed the predecessor link of delivery %s although the predecessor is outstanding", r.Op.K, id)
+			}
+		}
+	}
+	// progress: a job that removed fewer rows than its batch size has removed every row it is responsible for
+	if r.Op.K == "prune_expired_deliveries" && strings.HasPrefix(r.Resp, "ok:") {
+		var n int
+		fmt.Sscanf(r.Resp, "ok:%d", &n)
+		if n < r.Op.Max {
+			for id, a := range r.After {
+				if a.CompletedAt == nil && ns(a.ExpiresAt) < now {
+					m.fire("C15", "expired-left-behind", "prune_expired_deliveries removed %d rows (batch %d) but left the expired, unacknowledged delivery %s behind", n, r.Op.Max, id)
+					break
+				}
+			}
+		}
+	}
+	if r.Op.K == "prune_completed_deliveries" && strings.HasPrefix(r.Resp, "ok:") {
+		var n int
+		fmt.Sscanf(r.Resp, "ok:%d", &n)
+		if n < r.Op.Max {
+			for id, a := range r.After {
+				if a.CompletedAt != nil && ns(*a.CompletedAt) < now-r.Op.D {
+					m.fire("C15", "completed-left-behind", "prune_completed_deliveries removed %d rows (batch %d) but left delivery %s, completed longer ago than the age limit, behind", n, r.Op.Max, id)
+					break
+				}
 			}
 		}
 	}
